@@ -255,6 +255,7 @@ def build_corpus(rng, n_random):
         w = bytes(enc.make_data(nm(comps), enc.MetaInfo(), b'D%d' % did))
         fragc.add(pitkit.lp_wrap(w, frag=(0, 1)))
         fragc.add(pitkit.lp_wrap(w, frag=(1, 2), extra=True))
+        fragc.add(pitkit.lp_wrap(w, frag=(0, 2), odd=True))         # with a Sequence field in front, NDNLPv2 order
         # LpPacket whose Fragment announces more bytes than the packet holds (structurally malformed envelope)
         lpo.add(bytes([0x64]) + st.write_var(len(w) + 2) + bytes([0x50]) + st.write_var(len(w) + 7) + w)
         for i in range(1, len(w)):
